@@ -16,7 +16,9 @@ THEOREMS = ["c03_collect_errors_keeps_failures", "c03_interpretation_per_pair", 
             "c03_early_exit_never_changes_the_verdict", "c03_funnel_keeps_audit_verdict",
             "c03_funnel_keeps_cleanup_failure", "c03_funnel_keeps_component_errors",
             "c03_funnel_no_spurious_foul", "c03_conduct_reads_each_component_once",
-            "c03_collector_cancelled_only_after_a_failure", "c03_failure_free_play_exits_by_the_verdict"]
+            "c03_collector_cancelled_only_after_a_failure", "c03_failure_free_play_exits_by_the_verdict",
+            "c03_run_keeps_every_failure", "c03_run_exit_iff_play_or_operation_failed", "c03_upload_iff_not_interrupted",
+            "c03_clear_only_on_success", "c03_artifacts_removed_iff"]
 REFUTED = ["c03_funnel_every_component_error_kept_refuted", "c03_pinned_code_cancelled_the_collector_refuted"]
 
 HEADER = ("From Shk Require Import Base.Prelude Model.Verdict Corr.C03.\nFrom Coq Require Import String.\n"
@@ -29,7 +31,7 @@ ASSUMPTIONS = [
     "the stream of reports fed to the collector model is the one the real audition emitted (the audition itself is C02's subject)",
     "error values are abstracted to lists of causes {cancellation, audit violation, real}; errors.Is/Unwrap on an errorCollection look at its last element (errors.go)",
     "funnel theorems quantify over every choice conduct's select statements can make (an oracle, one element per select) and over arbitrary component error values; the structure of the four stages (Model/Verdict.v stage/stage3/conduct_run) is read off conductor.go by hand, cross-checked against a second hand-written mirror in the harness, and tied to the running code by the end-to-end plays (zero-duration plays make the audition end before the spotlight supervisor reports); which error values the components actually produce is observed end-to-end, not proved",
-    "directory / upload failures (run.go) are outside the funnel model",
+    "directory / upload failures (run.go) are outside the funnel model; the end of run() (plot, artifacts, result.js, index.html, upload, --clear) is modelled separately in Model/RunStage.v, read off run.go by hand and tied to the code by one end-to-end play per single failing operation under the flags -k / --clear / none (which operations fail is an arbitrary function in the theorems)",
 ]
 
 BASE = """role r
@@ -379,7 +381,49 @@ NOEXEC = {
 }
 
 
+# The end of run() under other flags (Model/RunStage.v): -k, --clear
+_RS = "role r\n  cleanup %s\n  :a %s\nend\ncast\n  x plays r\nend\nscript\n  tempo .1s\n  scene a entails for x: a\n  storyline a\nend\naudience\n  bob expects always: mood == 'clear'\nend\n"
+RUNFLAG = {
+    "keep-artifacts-index-html-blocked": (_RS % ("mkdir -p ../../index.html", "true"), True, ["-k"]),
+    "keep-artifacts-clean-play": (_RS % ("true", "true"), False, ["-k"]),
+    "clear-clean-play": (_RS % ("true", "true"), False, ["--clear"]),
+    "clear-result-js-blocked": (_RS % ("mkdir -p ../../result.js", "true"), True, ["--clear"]),
+    "clear-failing-action": (_RS % ("true", "false"), True, ["--clear"]),
+}
+# play name -> (clear, keep, noplot, failing operation, the play itself failed): the model's input
+RUNCASES = {
+    "index-html-blocked": (False, False, True, "DWriteHtml", False),
+    "result-js-blocked": (False, False, True, "DWriteResult", False),
+    "no-file-blocked-satisfied-auditor": (False, False, True, None, False),
+    "audit-csv-file-blocked": (False, False, True, None, True),
+    "action-csv-file-blocked": (False, False, True, None, True),
+    "artifacts-cannot-be-removed": (False, False, True, "DRmArtifacts", False),
+    "upload-succeeds": (False, False, True, None, False),
+    "upload-fails": (False, False, True, "DUpload", False),
+    "upload-unsupported-scheme": (False, False, True, "DUpload", False),
+    "keep-artifacts-index-html-blocked": (False, True, True, "DWriteHtml", False),
+    "keep-artifacts-clean-play": (False, True, True, None, False),
+    "clear-clean-play": (True, False, True, None, False),
+    "clear-result-js-blocked": (True, False, True, "DWriteResult", False),
+    "clear-failing-action": (True, False, True, None, True),
+}
+
+
+def run_cases_v(plays):
+    """Coq text of the run-stage cases of the plays that ran, and the plays in that order."""
+    b = lambda x: "true" if x else "false"
+    items, used = [], []
+    for p in plays:
+        if p["name"] in RUNCASES and not p.get("early"):
+            cl, kp, np_, fo, pf = RUNCASES[p["name"]]
+            items.append("(%s, %s, %s, %s, %s, %s)" % (b(cl), b(kp), b(np_), "Some " + fo if fo else "None", b(pf), b(p["exit"] != 0)))
+            used.append(p)
+    return "Definition run_cases : list run_case := [" + ";\n  ".join(items) + "].\n", used
+
+
 def run_play(binpath, name, early, keepdir=None):
+    if name in RUNFLAG:
+        return _run(binpath, name, early, RUNFLAG[name][0], RUNFLAG[name][1], extra_args=RUNFLAG[name][2])
     if name in NOEXEC:
         return _run(binpath, name, early, NOEXEC[name][0], NOEXEC[name][1], shell="/nonexistent/sh")
     if name in BLOCKED_CSV:
@@ -458,6 +502,7 @@ def run(tier, seed):
     jobs += [(n, e) for n in EXTRA_R for e in (False, True)]
     jobs += [(n, False) for n in BLOCKED_CSV]
     jobs += [(n, False) for n in NOEXEC]
+    jobs += [(n, False) for n in RUNFLAG]
     jobs += [(n, e) for n in ZERO for e in (False, True) for _ in range(ZERO_REPEATS[tier])]
     with concurrent.futures.ThreadPoolExecutor(max_workers=12) as ex:
         sig_futures = [ex.submit(signalled_play, bins["shakespeare"], sn) for sn in ("SIGTERM", "SIGHUP", "SIGINT")]
@@ -476,8 +521,10 @@ def run(tier, seed):
     queries = [("M", "bad_indices case_model_bad cases"), ("OC", "map case_oracle_code cases"),
                ("MF", "bad_indices funnel_model_bad funnel_cases"),
                ("MC", "bad_indices collect_model_bad collect_cases"),
-               ("OCE", "bad_indices collect_oracle_bad collect_cases")]
-    rc, cout, q, path = vlib.eval_cases(PID, tier, HEADER, cases_v, queries, timeout=3000)
+               ("OCE", "bad_indices collect_oracle_bad collect_cases"),
+               ("MR", "bad_indices run_case_bad run_cases")]
+    rcv, run_plays = run_cases_v(plays)
+    rc, cout, q, path = vlib.eval_cases(PID, tier, HEADER.replace("Model.Verdict ", "Model.Verdict Model.RunStage "), cases_v + rcv, queries, timeout=3000)
     vals = {k: vlib.parse_nat_list(v) for k, v in q.items()}
     res.coverage.update({
         "evaluations": summary["cases"] + len(plays), "distinct_nontrivial": summary["distinct_nontrivial"],
@@ -507,7 +554,7 @@ def run(tier, seed):
                           "play with the single cause %r%s exits %s, documented: %s" %
                           (p["name"], " (-S)" if p["early"] else "", p["exit"], "non-zero" if p["expected_nonzero"] else "0"),
                           {"kind": "failing-input", "play": p, "replay": "shakespeare -o out --disable-plots -q %splay.cfg" % ("-S " if p["early"] else "")})
-        elif p["foul_flag"] is not None and p["foul_flag"] != (p["exit"] != 0) and p["name"] not in ("second-cleanup-fails", "index-html-blocked"):  # both happen after result.js has been written
+        elif p["foul_flag"] is not None and p["foul_flag"] != (p["exit"] != 0) and p["name"] not in ("second-cleanup-fails", "index-html-blocked", "keep-artifacts-index-html-blocked"):  # both happen after result.js has been written
             res.violation("foul-flag-" + p["name"], "result.js Foul=%s but exit status %s" % (p["foul_flag"], p["exit"]),
                           {"kind": "failing-input", "play": p})
     seen = set()
@@ -529,6 +576,10 @@ def run(tier, seed):
             if vals[name]:
                 res.violation(None, "%s on %d cases" % (what, len(vals[name])),
                               {"kind": "correspondence", "query": name, "first_index": vals[name][0], "cases_file": path}, no_input=True)
+    if not res.violations and not res.known and vals.get("MR"):
+        pl = run_plays[vals["MR"][0]]
+        res.violation(None, "the end of run() (Model/RunStage.v) and the implementation disagree on the exit status of play %r (flags, failing operation, play failed = %r): observed exit %s while the hand-written expectation passes; correspondence MR broken" % (pl["name"], RUNCASES[pl["name"]], pl["exit"]),
+                      {"kind": "correspondence", "query": "MR", "play": pl, "model_input": RUNCASES[pl["name"]]}, no_input=True)
     if not res.violations and not res.known and vals["M"]:
         c = cases[vals["M"][0]]
         res.violation(None, "model (Model/Verdict.v) and implementation disagree on %d of %d cases while the documented-rule oracle passes" % (len(vals["M"]), len(cases)),
